@@ -10,7 +10,7 @@ pub fn cfg(tier: &str) -> FaultCfg {
         torn: if tier == "quick" { TornMode::Boundaries } else { TornMode::EveryOplogByte },
         io_faults: false,
         with_contig: false,
-        cont_depth: 1,
+        cont_depth: 2,
         double_fault: false,
         check_secret: false,
         thin_over: 0,
